@@ -487,6 +487,27 @@ func (w *World) PayHash(t *Tape, h [32]byte, amount int64) bool {
 	return true
 }
 
+// AnnounceAgainAll announces again every still-unconfirmed transaction whose
+// parents are all confirmed and that has no rival the node knows of (see
+// AnnounceAgain), and returns them.
+//
+//go:norace
+func (w *World) AnnounceAgainAll(t *Tape, max int) []*wire.MsgTx {
+	var out []*wire.MsgTx
+	seen := map[wire.Hash]bool{}
+	for i := 0; i < max*3 && len(out) < max; i++ {
+		tx, free := w.AnnounceAgain(t)
+		if tx == nil {
+			break
+		}
+		if h := tx.TxHash(); free && !seen[h] {
+			seen[h] = true
+			out = append(out, tx)
+		}
+	}
+	return out
+}
+
 // AllDelivered reports whether every running instance has an empty queue.
 //
 //go:norace
